@@ -16,6 +16,7 @@ package rapid
 //@ event ExecFailed = ret supervisor/model.(ProcessSupervisor).Exec when r0 != nil
 //@ event LaunchErrorRecorded = call rapid.agentLaunchError
 //@ event ExitChannelCreated = call rapid.(*shutdownContext).createExitedChannel
+//@ event ExitChannelForgotten = call rapid.(*shutdownContext).forgetExitedChannel
 //@ event AwaitRegistered = call core.(InitFlowSynchronization).AwaitExternalAgentsRegistered
 //@ event AwaitRegisteredOK = ret core.(InitFlowSynchronization).AwaitExternalAgentsRegistered when r0 == nil
 //@ event InitExtensions = call rapid.doInitExtensions
@@ -69,6 +70,7 @@ package rapid
 //@   ensures [returns-ok-only-after-all-registered] r0 == nil ==> delta(AwaitRegistered) == 1 && delta(AwaitRegisteredOK) == 1 && (delta(ExecAny) >= 1 ==> last(ExecAny) < first(AwaitRegistered))
 //@   ensures [over-limit-not-launched] delta(CountOverLimit) >= 1 ==> r0 == core.ErrTooManyExtensions && delta(ExecAny) < delta(CreateExt) && delta(LaunchErrorRecorded) == 1
 //@   ensures [failed-launch-recorded] delta(ExecFailed) >= 1 ==> r0 != nil && delta(LaunchErrorRecorded) == 1 && delta(AwaitRegistered) == 0
+//@   ensures [a-process-that-was-not-started-leaves-no-exit-to-wait-for] delta(ExitChannelForgotten) == delta(ExecFailed) && (delta(ExecFailed) >= 1 ==> lastarg(ExitChannelForgotten, 1) == lastarg(ExitChannelCreated, 1) && lastarg(ExitChannelCreated, 1) == lastarg(ExecAny, 2).Name)
 //@   loop range agentPaths: invariant [count-set-once] delta(SetRegisterCount) == 1 && lastarg(SetRegisterCount, 1) == len(agentPaths) % 65536
 //@   loop range agentPaths: invariant [named-by-base-name-and-launched-from-its-path] rangeindex >= 0 ==> lastarg(CreateExt, 1) == pathBase(agentPaths[rangeindex]) && lastarg(ExecAny, 2).Path == agentPaths[rangeindex] && lastarg(ExecAny, 2).Domain == domain
 //@   loop range agentPaths: invariant [bounds] 0 <= rangeindex + 1 && rangeindex + 1 <= len(agentPaths)
@@ -145,6 +147,7 @@ package rapid
 // C03 + C15: the initialisation skeleton
 //@ func doRuntimeDomainInit
 //@   requires held(execCtx)
+//@   ensures [a-runtime-that-was-not-started-leaves-no-exit-to-wait-for] delta(ExecRuntime) == 1 && delta(ExecFailed) >= 1 ==> delta(ExitChannelForgotten) == 1 && lastarg(ExitChannelForgotten, 1) == lastarg(ExitChannelCreated, 1)
 //@   ensures [C07: the-exit-channel-exists-before-the-runtime-is-started] delta(ExecRuntime) >= 1 ==> delta(ExitChannelCreated) >= 1 && last(ExitChannelCreated) < last(ExecRuntime)
 //@   requires execCtx != nil && validPhase(phase) && sbInfoFromInit.EnvironmentVariables != nil
 //@   ensures [init-start-then-report] delta(EvInitStart) == 1 && delta(EvInitReport) == 1 && first(EvInitStart) < first(EvInitReport)
